@@ -66,10 +66,13 @@ func (t *Task) run() string {
 
 // ---------- Taskfile rendering ----------
 
+// vExpr renders the value of the call variable(s): V, or V+W when W is passed too.
+const vExpr = "{{.V}}{{if .W}}+{{.W}}{{end}}"
+
 // pexpr is the template expression a task uses for its own printed path.
 func pexpr(name string, t *Task) string {
 	if t.run() == "when_changed" {
-		return name + "[{{.V}}]"
+		return name + "[" + vExpr + "]"
 	}
 	return "{{.P}}"
 }
@@ -99,7 +102,11 @@ func callVars(p *Program, self string, st *Task, cs *CallSite, kind string, idx 
 	case len(cs.For) > 0:
 		parts = append(parts, "V: '{{.ITEM}}'")
 	case cs.V == "$":
-		parts = append(parts, "V: '{{.V}}'")
+		parts = append(parts, "V: '{{.V}}'", "W: '{{.W}}'")
+	case strings.Contains(cs.V, "+"):
+		// a pair value "x+y" stands for two variables V=x, W=y
+		f := strings.SplitN(cs.V, "+", 2)
+		parts = append(parts, "V: "+yq(f[0]), "W: "+yq(f[1]))
 	case cs.V != "":
 		parts = append(parts, "V: "+yq(cs.V))
 	}
@@ -139,7 +146,7 @@ func (p *Program) Taskfile() string {
 			b.WriteString("    status: ['true']\n")
 		}
 		if t.run() == "when_changed" && t.VUse == "env" {
-			b.WriteString("    env: {VV: '{{.V}}'}\n")
+			b.WriteString("    env: {VV: '{{.V}}', WW: '{{.W}}'}\n")
 		}
 		if len(t.Deps) > 0 {
 			b.WriteString("    deps:\n")
@@ -162,7 +169,7 @@ func (p *Program) Taskfile() string {
 			b.WriteString("    cmds:\n")
 			for i, c := range t.Cmds {
 				idx := i + 1
-				vtxt := "{{.V}}"
+				vtxt := vExpr
 				if t.run() == "when_changed" && (t.VUse == "env" || t.VUse == "sub") {
 					vtxt = "-" // V deliberately does not reach the command text
 				}
@@ -178,7 +185,7 @@ func (p *Program) Taskfile() string {
 					}
 					line := fmt.Sprintf("echo 'B|%s|%s|%d|%s|%s|%s'", pexpr(name, t), name, idx, item, vtxt, xc)
 					if t.run() == "when_changed" && t.VUse == "env" {
-						line = fmt.Sprintf("echo \"B|%s|%s|%d|%s|$VV|%s\"", name+"[$VV]", name, idx, item, xc)
+						line = fmt.Sprintf("echo \"B|%s|%s|%d|%s|$VV${WW:++$WW}|%s\"", name+"[$VV${WW:++$WW}]", name, idx, item, xc)
 					}
 					if c.X != 0 {
 						line += fmt.Sprintf("; exit %d", c.X)
